@@ -69,7 +69,7 @@ pub enum Op {
     Enable,
     EnableMax(u8),
     /// calls that are not supposed to touch the label policy: replace the CRC calculator by an equal one,
-    /// read it back, ask whether re-use is enabled
+    /// read it back, ask whether re-use is enabled, carry on with a clone of the encapsulator
     Accessors,
     /// the receiving application takes buffers out of the decapsulator with its public `new_pdu` until it
     /// reports that none is left, then provisions them all again
@@ -87,7 +87,7 @@ pub fn op_str(op: &Op) -> String {
         Op::Disable => "disable".into(),
         Op::Enable => "enable".into(),
         Op::EnableMax(n) => format!("enable_max({})", n),
-        Op::Accessors => "set_crc_calculator/get_crc_calculator/is_enabled_re_use_label".into(),
+        Op::Accessors => "set_crc_calculator/get_crc_calculator/is_enabled_re_use_label/clone".into(),
         Op::AppDrain => "receiver: new_pdu until empty, provision all again".into(),
         Op::SameId => "next PDU on the previous fragment id".into(),
     }
@@ -314,6 +314,9 @@ impl Exec {
                 self.enc.set_crc_calculator(DefaultCrc {});
                 let _ = self.enc.get_crc_calculator();
                 let _ = self.enc.is_enabled_re_use_label();
+                // ... and the stream is carried on by a clone of the encapsulator (the original is dropped)
+                let copy = self.enc.clone();
+                self.enc = copy;
                 true
             }
             Op::Cont => {
